@@ -218,9 +218,10 @@ func pickUsable(h *gen.Hist, r *core.Rand) *model.Table {
 
 func checkC03(c *core.Ctx) []core.Floor {
 	c.Level = "fault_enumeration"
-	c.Rule = "seeded prefix histories followed by one multi-row INSERT/UPDATE/DELETE (2-14 row operations; a third of the INSERTs move the table's root in mid-batch; one history in twenty places the root-moving record exactly where the statement's log bytes reach 2^9 ... 2^17, on fresh tables and on tables about to split their internal root); a crash image is taken immediately before EVERY write and fsync the statement issues on the log file, in two cuts (log as written / log as of the last fsync). Each image is recovered in a fresh process; the state must equal pre-state + first j row operations for some j; recovery is repeated; then 3-8 further statements are checked against the model continued from that j-state. Distinct = image; non-trivial = recovery of the image replayed at least one log record."
+	c.Rule = "seeded prefix histories followed by one multi-row INSERT/UPDATE/DELETE (2-14 row operations; a third of the INSERTs move the table's root in mid-batch; one history in twenty places the root-moving record exactly where the statement's log bytes reach 2^9 ... 2^17, on fresh tables and on tables about to split their internal root); a crash image is taken immediately before EVERY write and fsync the statement issues on the log file, in two cuts (log as written / log as of the last fsync). Each image is recovered in a fresh process; the state must equal pre-state + first j row operations for some j; recovery is repeated; then 3-8 further statements are checked against the model continued from that j-state. Independently of the hooks, one history in forty (eight in the thorough tier) is re-run under strace once per write / fsync call it makes on the log file - every statement of the history, not only the armed one - with SIGKILL delivered on entry to that call; what is left must be a prefix state of the statement that was in flight, and 3-5 further statements must behave. Distinct = image; non-trivial = recovery of the image replayed at least one log record."
 	c.Assume = []string{"process-death crash model; the fsync cut applies to the log only", "the data file is untouched while a statement appends to the log (timer off: a flush cannot interleave, which is C13's claim)"}
 	drv := mustDriver(c, false)
+	straceOK = straceWorks(c, drv)
 	n := 1200
 	if !core.Quick(c) {
 		n = 30000
@@ -228,12 +229,16 @@ func checkC03(c *core.Ctx) []core.Floor {
 	core.ParallelFor(n, c.Workers, func(i int) {
 		runArmedHist(c, drv, buildArmedHist(c, i))
 	})
-	return []core.Floor{
+	floors := []core.Floor{}
+	if straceOK {
+		floors = append(floors, core.Floor{Key: "syscall_kills", Min: 200})
+	}
+	return append(floors, []core.Floor{
 		{Key: "images_verified", Min: 1000}, {Key: "armed_insert-root-move", Min: 10}, {Key: "armed_insert-bulk", Min: 10}, {Key: "armed_insert-internal-root-move", Min: 3}, {Key: "armed_insert-root-move-two-level-catalog", Min: 5}, {Key: "log_batches_over_16KiB", Min: 10}, {Key: "armed_update", Min: 10}, {Key: "armed_delete", Min: 10},
 		{Key: "images_insert_sync_f", Min: 1}, {Key: "images_update_sync_f", Min: 1}, {Key: "images_delete_sync_f", Min: 1},
 		{Key: "images_insert_len_w", Min: 1}, {Key: "images_update_len_w", Min: 1}, {Key: "images_delete_len_w", Min: 1},
 		{Key: "continuations_ok", Min: 500},
-	}
+	}...)
 }
 
 func runArmedHist(c *core.Ctx, drv string, ah *armedHist) {
@@ -344,8 +349,40 @@ func runArmedHist(c *core.Ctx, drv string, ah *armedHist) {
 			jobs = append(jobs, j)
 		}
 	}
+	nHook := len(jobs)
+	every, maxKills := 40, 120
+	if !core.Quick(c) {
+		every, maxKills = 8, 400
+	}
+	if straceOK && ah.idx%every == 0 {
+		// crash points at system-call level, independent of the hooks: every
+		// write and fsync the whole history issues on the log file
+		kops := make([]proto.Op, len(s.ops))
+		copy(kops, s.ops)
+		for k := range kops {
+			switch kops[k].K {
+			case "arm", "disarm", "dump":
+				kops[k] = proto.Op{K: "stats", ID: kops[k].ID}
+			}
+		}
+		pre := map[int]*model.DB{}
+		stm := map[int]*proto.Stmt{}
+		pm := model.NewDB()
+		for i, id := range stmtOps {
+			pre[id], stm[id] = pm.Clone(), ah.stmts[i]
+			pm.Apply(ah.stmts[i])
+		}
+		pre[armedOp], stm[armedOp] = pm.Clone(), ah.armed
+		sk := syscallKillsWal(c, drv, dir, ah.idx, kops, func(op int) (*proto.Stmt, *model.DB) { return stm[op], pre[op] }, core.SubSeed(c.Seed, "C03K", ah.idx), maxKills)
+		c.Count("histories_re_run_under_strace", 1)
+		jobs = append(jobs, sk...)
+	}
 	verifyCrashJobs(c, "C03", drv, dir, jobs)
-	for _, j := range jobs {
+	for ji, j := range jobs {
+		if ji >= nHook {
+			c.Eval(j.dir, j.recDirty > 0)
+			continue
+		}
 		if j.matched >= 0 {
 			jj := nOps - j.matched
 			switch {
